@@ -1,5 +1,6 @@
 import Pypika.Props.C02
 import Pypika.RenderEqns
+import Pypika.Spec.Parser
 /-!
 # C02 — the bridge: the model's `render` on arithmetic terms IS `renderTok`
 
@@ -123,6 +124,21 @@ theorem cmp_operands_sound {α : Type} (A : Alg α) (env : Nat → α) (e1 e2 : 
   obtain ⟨t1, g1, v1⟩ := render_sound A env e1
   obtain ⟨t2, g2, v2⟩ := render_sound A env e2
   exact ⟨t1, t2, G.to g1 (Nat.zero_le _) (lvlOf_le e1), G.to g2 (Nat.zero_le _) (lvlOf_le e2), v1, v2⟩
+
+/-- **C02, arithmetic level, with the reading made unique.**  `G` is unambiguous (`Spec.G_unambiguous`, by completeness of
+    a deterministic precedence parser), so *every* derivation of the rendered tokens — there is exactly one — denotes the
+    function the user's tree denotes. -/
+theorem every_reading_agrees {α : Type} (A : Alg α) (env : Nat → α) (e t' : Tree) (g : G (lvlOf e) (renderTok e) t') :
+    eval A env t' = eval A env e := by
+  obtain ⟨t0, g0, v0⟩ := render_sound A env e
+  rw [G_unambiguous g g0]; exact v0
+
+/-- the parser reads the rendered tokens back as a tree of equal value (executable form) -/
+theorem parse_renderTok {α : Type} (A : Alg α) (env : Nat → α) (e : Tree) :
+    ∃ f t', parse f (lvlOf e) (renderTok e) = some (t', []) ∧ eval A env t' = eval A env e := by
+  obtain ⟨t0, g0, v0⟩ := render_sound A env e
+  obtain ⟨f, hf⟩ := parse_of_G g0
+  exact ⟨f, t0, hf, v0⟩
 
 /-- non-vacuity: fields and a function call are atoms in the `str()` context -/
 def rho0 : Nat → Term
